@@ -124,6 +124,38 @@ func mjDumpSignature() string {
 	return strings.Join(sig, ";")
 }
 
+// mjAllParked: every goroutine with the MaxJobsSemaphore or the RemoteJobManager on its stack is
+// blocked in sync.Cond.Wait (none is running, runnable, submitting a job or waiting for a lock).
+func mjAllParked() bool {
+	buf := make([]byte, 1<<16)
+	for {
+		n := runtime.Stack(buf, true)
+		if n < len(buf) {
+			buf = buf[:n]
+			break
+		}
+		buf = make([]byte, 2*len(buf))
+	}
+	for _, g := range bytes.Split(buf, []byte("\n\n")) {
+		if !bytes.Contains(g, []byte("MaxJobsSemaphore")) && !bytes.Contains(g, []byte("RemoteJobManager")) {
+			continue
+		}
+		if bytes.Contains(g, []byte("main.mjAllParked")) {
+			continue // the harness's own goroutine taking this dump
+		}
+		nl := bytes.IndexByte(g, '\n')
+		if nl < 0 {
+			return false
+		}
+		hdr := g[:nl]
+		i := bytes.IndexByte(hdr, '[')
+		if i < 0 || !bytes.HasPrefix(hdr[i+1:], []byte("sync.Cond.Wait")) {
+			return false
+		}
+	}
+	return true
+}
+
 var mjParkDetection = true
 
 type mjExec struct {
